@@ -10,7 +10,10 @@ pub mod c08;
 pub mod c09;
 pub mod days;
 pub mod c11;
+pub mod c12;
+pub mod c13;
 pub mod c14;
+pub mod c15;
 pub mod c16;
 pub mod c17;
 pub mod c18;
@@ -28,7 +31,10 @@ pub fn meta(prop: &str) -> Option<Meta> {
         "C08" => c08::meta(),
         "C09" => c09::meta(),
         "C11" => c11::meta(),
+        "C12" => c12::meta(),
+        "C13" => c13::meta(),
         "C14" => c14::meta(),
+        "C15" => c15::meta(),
         "C16" => c16::meta(),
         "C17" => c17::meta(),
         "C18" => c18::meta(),
@@ -49,7 +55,10 @@ pub fn run(prop: &str, cfg: &Cfg, rep: &mut Rep) {
         "C08" => c08::run(cfg, rep),
         "C09" => c09::run(cfg, rep),
         "C11" => c11::run(cfg, rep),
+        "C12" => c12::run(cfg, rep),
+        "C13" => c13::run(cfg, rep),
         "C14" => c14::run(cfg, rep),
+        "C15" => c15::run(cfg, rep),
         "C16" => c16::run(cfg, rep),
         "C17" => c17::run(cfg, rep),
         "C18" => c18::run(cfg, rep),
